@@ -246,6 +246,26 @@ def run(prog, rep):
         "the refusals that are early today stay ahead of the first effect."
     )
     n_early, n_funcs = path_rules(ct, cd, rep)
+    # the read-only refusal must come before the in-memory table changes (the handle refuses the write, but only after that)
+    from .c08 import body_guards, eval_guard, wrapper_guards
+    wg = wrapper_guards(ct)
+    for name in ("add_block", "remove_block"):
+        ff = ct.facts(name)
+        decs = [d for d in ff.f.decorators if d in wg]
+        # guards that dominate every table/file effect
+        effs = ff.ev(*M.FILE_EFFECTS, *TABLE_EFFECTS)
+        conds = [wg[d][0] for d in decs if wg[d][0] is not None]
+        for st in walk_no_nested(ff.f.node):
+            if isinstance(st, ast.If) and st.body and isinstance(st.body[-1], ast.Raise) and not st.orelse:
+                names = {n.attr for n in ast.walk(st.test) if isinstance(n, ast.Attribute) and isinstance(n.value, ast.Name) and n.value.id == "self"}
+                if names and names <= {"_mode", "_inside_context"} and effs and all(ff.cfg.dominates(ff.cfg.node_of(st), e.node) for e in effs):
+                    conds.append(st.test)
+        ro_state = (True, "rb", "ro", False)
+        if any(eval_guard(c, ro_state) for c in conds):
+            rep.ok("early-rejections", f"Tdf.{name}: inside a read-only context the call is refused before any table or file effect", nontrivial=True)
+        else:
+            rep.fail("early-rejections", mod, f"Tdf.{name}", ff.f.node, "inside a plain (read-only) context nothing refuses the call before the in-memory table is changed: the handle rejects the write only afterwards, leaving a phantom entry",
+                     construct=f"Tdf.{name} read-only refusal")
     rep.floor("early-rejections", n_early, 5)
     rep.floor("validate-before-effect/mutators", n_funcs, 8)
     rep.extra["late_reject_writers"] = sorted(late_reject_writers(cd))
